@@ -316,16 +316,27 @@ OPS = ["<==", "==>", "<--", "-->", "===", ">>=", "<<=", "**=", "\\=", "+=", "-="
        "++", "--", "**", "<<", ">>", "<=", ">=", "==", "!=", "&&", "||"]
 
 
+# Unicode White_Space beyond ASCII (the generated lexer skips `\\s`): UTF-8 encodings
+UNICODE_BLANKS = [s.encode() for s in ["\u0085", "\u00a0", "\u1680", "\u2028", "\u2029", "\u202f", "\u205f", "\u3000"] +
+                  [chr(c) for c in range(0x2000, 0x200b)]]
+INVALID = {}
+
+
 def lex(b):
     """Reference tokeniser of the original text: -> (token_starts, token_ends, unclosed_comment_offset|None).
-    Comments and blanks are skipped the way the language defines them."""
+    Comments and blanks are skipped the way the language defines them.  The offsets of characters that
+    cannot start a token are remembered in INVALID[b] (first one = where `Invalid token` must point)."""
     starts, ends = set(), set()
     i, n = 0, len(b)
     unclosed = None
+    invalid = []
+    INVALID[b] = invalid
     while i < n:
         c = b[i:i + 1]
-        if c in b" \t\r\n":
+        if c in b" \t\r\n\x0b\x0c":
             i += 1
+        elif b[i] >= 0xC2 and any(b.startswith(u, i) for u in UNICODE_BLANKS):
+            i += len(next(u for u in UNICODE_BLANKS if b.startswith(u, i)))
         elif b.startswith(b"//", i):
             j = b.find(b"\n", i)
             i = n if j < 0 else j
@@ -355,6 +366,8 @@ def lex(b):
                         i += len(op)
                         break
                 else:
+                    if c not in b"()[]{},;.=<>+-*/\\%&|^~!?:":
+                        invalid.append(i)
                     i += 1
                     while i < n and (b[i] & 0xC0) == 0x80:
                         i += 1
@@ -498,7 +511,9 @@ def allowed_ranges(report, label, spans, src, primary=True):
             last = max(en) if en else 0
             return "end of the last token of the file (where the input ends)", [(last, last)]
         if msg.startswith("Invalid token"):
-            return "position of the injected invalid token", [(s["start"], s["start"]) for s in spans_where(spans, ("injected",))]
+            lex(src)
+            inv = INVALID.get(src) or []
+            return "first character of the file that cannot start a token", [(inv[0], inv[0])] if inv else []
         if msg.startswith("Unrecognized token") or msg.startswith("Extra token"):
             t = tick(msg)
             st, en, _ = lex(src)
@@ -826,6 +841,9 @@ def evaluate(projects, harness, cli, root, stats, nontrivial):
         stats["style:" + p.get("style", "raw")] += 1
         if p.get("inject"):
             stats["inject:" + p["inject"]] += 1
+        if p.get("exotic"):
+            stats["exotic:" + p["exotic"]] += 1
+            stats["exotic_outcome:%s:%s" % (p["exotic"], "rejected" if any(r["id"] == "P1000" and r["message"].startswith("Invalid token") for r in (out.get("reports") or [])) else "accepted")] += 1
         for k, v in (p.get("trivia") or {}).items():
             stats["trivia:" + k] += v
         if "bad_input" in out:
@@ -848,7 +866,7 @@ def evaluate(projects, harness, cli, root, stats, nontrivial):
 
 def project_replay(p):
     return {"files": {k: (v.decode(errors="surrogateescape") if isinstance(v, bytes) else v) for k, v in p["files"].items()},
-            "argv": p["argv"], "libs": p.get("libs", []), "curve": p.get("curve", "BN254"), "style": p.get("style"),
+            "argv": p["argv"], "libs": p.get("libs", []), "curve": p.get("curve", "BN254"), "style": p.get("style"), "exotic": p.get("exotic"),
             "inject": p.get("inject"), "spans": p.get("brief"), "origin": p.get("origin")}
 
 
@@ -959,6 +977,8 @@ def run(ctx, proofs):
         "labels_in_fixed_text_support_templates": stats["labels_in_support_templates"],
         "styles": {k[6:]: v for k, v in stats.items() if k.startswith("style:")},
         "injections": {k[7:]: v for k, v in stats.items() if k.startswith("inject:")},
+        "exotic_scalars": {k[7:]: v for k, v in stats.items() if k.startswith("exotic:")},
+        "exotic_scalar_outcomes": {k[15:]: v for k, v in stats.items() if k.startswith("exotic_outcome:")},
         "trivia_inserted": {k[7:]: v for k, v in stats.items() if k.startswith("trivia:")},
         "generator_features": dict(features),
         "panics_in_process": stats["panics_in_process"],
